@@ -5,6 +5,12 @@
 // MIC ok -> received(), MIC not ok -> acknowledge()), a reference central ARQ written from Vol 6 Part B 4.5.9, and the air
 // (loss / CRC error in either direction, MIC error).  Real code: ll_data_pdu_buffer + pdu_ring_buffer with the default and
 // the nRF encrypted PDU layout.  Stub: the radio (counters, MIC decision from the two sides' packet counters).
+//
+// Configurations 10..19 replace the re-stated decision table by the REAL nRF52 radio front end (nrf52.hpp: schedule_connection_event(),
+// radio_interrupt_handler() in its connection event states, run(), the packet counter forwarding of nrf52_radio< ..., true, ... >) on the
+// simulated Hardware of harness/nrf_front.hpp: the world fills the receive buffer the front end configured, sets (anchor, PDU / MIC, CRC)
+// and fires the radio interrupt; what the front end configured as the final transmit is what goes on the air.
+#include "nrf_front.hpp"
 #include <iterator>
 #include <array>
 #include <algorithm>
@@ -51,6 +57,90 @@ struct radio_stub : bluetoe::link_layer::ll_data_pdu_buffer< Tx, Rx, radio_stub<
     write_buffer isr_next_transmit()                    { return this->next_transmit(); }
 };
 
+// ---- the radio between air and buffer: the harness's re-statement of the decision table ...
+template < std::size_t Tx_, std::size_t Rx_, bool Enc_ >
+struct stub_port
+{
+    static constexpr std::size_t Tx = Tx_, Rx = Rx_;
+    static constexpr bool Enc = Enc_, has_counters = true, real = false;
+    using radio_t = radio_stub< Tx, Rx, Enc >;
+    std::unique_ptr< radio_t > holder{ new radio_t };
+    radio_t& radio() { return *holder; }
+    std::uint64_t rx_counter() const { return holder->rx_counter; }
+    std::uint64_t tx_counter() const { return holder->tx_counter; }
+    void reset_counters() { holder->rx_counter = holder->tx_counter = 0; }
+    void nothing_heard( sim::Result& ) {}
+    read_buffer begin_event( sim::Result& ) { return holder->isr_allocate_receive_buffer(); }
+    bool room( const read_buffer& b ) const { return b.size != 0; }
+    // -> responded, transmit buffer
+    std::pair< bool, write_buffer > reception( bool room, bool valid_crc, bool valid_mic, const read_buffer& buf, sim::Result& )
+    {
+        if ( !valid_crc && !valid_mic ) return { false, write_buffer{ nullptr, 0 } };
+        if ( !room || !valid_crc ) return { true, holder->isr_next_transmit() };
+        if ( valid_mic ) return { true, holder->isr_received( buf ) };
+        return { true, holder->isr_acknowledge( buf ) };
+    }
+};
+
+// ---- ... and the real front end
+template < std::size_t Tx_, std::size_t Rx_, bool Enc_ >
+struct nrf_port
+{
+    static constexpr std::size_t Tx = Tx_, Rx = Rx_;
+    static constexpr bool Enc = Enc_, has_counters = Enc_, real = true;
+    using radio_t = nrf_front::front< Tx, Rx, Enc >;
+    struct init { init() { nrf_front::reset_hardware(); } } init_;
+    nrf_front::static_like< radio_t > holder;
+    unsigned channel = 0;
+    radio_t& radio() { return *holder; }
+    std::uint64_t rx_counter() const { return nrf_front::g_hw.rx_counter; }
+    std::uint64_t tx_counter() const { return nrf_front::g_hw.tx_counter; }
+    void reset_counters() { nrf_front::g_hw.rx_counter = nrf_front::g_hw.tx_counter = 0; }
+    read_buffer begin_event( sim::Result& res )
+    {
+        nrf_front::hw_state& hw = nrf_front::g_hw;
+        hw.now_us = 0; hw.rx_configured = false; hw.evt_timer = false;
+        channel = ( channel + 7 ) % 37;
+        holder->schedule_connection_event( channel, nrf_front::delta_time( 20000 ), nrf_front::delta_time( 20200 ), nrf_front::delta_time( 30000 ) );
+        if ( !hw.evt_timer || !hw.rx_configured || hw.channel != channel || hw.rx.buffer == nullptr || hw.rx.size < 3 )
+        {
+            res.violate( "C15", "front-end", "front-end event-not-armed", -1, "schedule_connection_event() did not arm timer, channel and receive buffer" );
+            return read_buffer{ nullptr, 0 };
+        }
+        return hw.rx;
+    }
+    // without room in the receive ring the front end listens with a 3 byte buffer (header only)
+    bool room( const read_buffer& b ) const { return b.size > 3; }
+    void nothing_heard( sim::Result& res )
+    {
+        begin_event( res );
+        nrf_front::g_hw.rx_result = std::make_tuple( false, false, false );
+        const unsigned before = holder->n_timeout;
+        holder->fire_isr();
+        holder->run();
+        if ( holder->n_timeout != before + 1 ) res.violate( "C15", "front-end", "front-end timeout-not-reported", -1, "an event without reception was not reported as timeout()" );
+    }
+    std::pair< bool, write_buffer > reception( bool, bool valid_crc, bool valid_mic, const read_buffer&, sim::Result& res )
+    {
+        nrf_front::hw_state& hw = nrf_front::g_hw;
+        hw.rx_result = std::make_tuple( true, valid_mic, valid_crc );
+        hw.tx_configured = false;
+        const unsigned t0 = holder->n_timeout, e0 = holder->n_end_event;
+        holder->fire_isr();
+        if ( !hw.tx_configured )
+        {
+            holder->run();
+            if ( holder->n_timeout != t0 + 1 ) res.violate( "C15", "front-end", "front-end timeout-not-reported", -1, "an event that ended without transmission was not reported as timeout()" );
+            return { false, write_buffer{ nullptr, 0 } };
+        }
+        const write_buffer trans = hw.tx;
+        holder->fire_isr();     // the response is out
+        holder->run();
+        if ( holder->n_end_event != e0 + 1 ) res.violate( "C15", "front-end", "front-end end-not-reported", -1, "a completed connection event was not reported as end_event()" );
+        return { true, trans };
+    }
+};
+
 enum { op_exchange, op_central_send, op_ll_send, op_ll_receive, op_set_max_rx, op_set_max_tx, op_stop, op_reset, op_count };
 enum { f_none, f_c2p_lost, f_c2p_crc, f_c2p_mic, f_p2c_lost, f_p2c_crc, f_count };
 
@@ -70,14 +160,16 @@ std::vector< std::uint8_t > make_payload( unsigned id, std::size_t len )
     return p;
 }
 
-template < std::size_t Tx, std::size_t Rx, bool Enc >
+template < class Port >
 void run( const sim::Plan& plan, sim::Result& res )
 {
-    using radio_t = radio_stub< Tx, Rx, Enc >;
+    constexpr std::size_t Tx = Port::Tx, Rx = Port::Rx;
+    constexpr bool Enc = Port::Enc;
+    using radio_t = typename Port::radio_t;
     using layout  = typename radio_t::layout;
-    std::unique_ptr< radio_t > radio_holder( new radio_t );
-    radio_t& radio = *radio_holder;
-    const std::string cfg = std::string( Enc ? "encrypted" : "default" ) + " tx " + std::to_string( Tx ) + " rx " + std::to_string( Rx );
+    Port port;
+    radio_t& radio = port.radio();
+    const std::string cfg = std::string( Port::real ? "nRF52 front end, " : "" ) + std::string( Enc ? "encrypted" : "default" ) + " tx " + std::to_string( Tx ) + " rx " + std::to_string( Rx );
     const std::size_t overhead = radio_t::layout_overhead;
 
     // ---- reference central
@@ -96,7 +188,7 @@ void run( const sim::Plan& plan, sim::Result& res )
     unsigned next_id = 1;
     bool stopped = false;
     unsigned n_exchanges = 0, n_faults = 0, n_new_rx = 0, n_new_tx = 0;
-    bool violated = false;
+    bool violated = false, counter_rule_hit = false;
 
     auto central_pick = [&]() {
         if ( c_has_inflight ) return;
@@ -108,7 +200,7 @@ void run( const sim::Plan& plan, sim::Result& res )
     auto reset_model = [&]() {
         cqueue.clear(); c_has_inflight = false; c_sn = c_nesn = false; c_tx_count = c_rx_count = 0;
         c_acked.clear(); c_received.clear(); committed.clear(); sent_valid.clear(); delivered = 0; stopped = false;
-        radio.rx_counter = radio.tx_counter = 0;
+        port.reset_counters();
     };
 
     auto ll_receive = [&]( long idx ) -> bool {
@@ -172,15 +264,18 @@ void run( const sim::Plan& plan, sim::Result& res )
         {
             res.fault( "c2p_lost" ); ++n_faults;
             res.note( "exchange: c2p lost" );
+            port.nothing_heard( res );
             return;     // the peripheral hears nothing, the event times out, the central gets no response
         }
-        read_buffer buf = radio.isr_allocate_receive_buffer();
-        const bool room = buf.size != 0;
+        read_buffer buf = port.begin_event( res );
+        if ( buf.buffer == nullptr && Port::real ) { violated = true; return; }
+        const bool room = port.room( buf );
         std::uint8_t small[ 3 + 1 ] = { 0 };
         if ( room && buf.size < layout::data_channel_pdu_memory_size( c_inflight.payload.size() ) )
         {
             // cannot happen with a central that honours max_rx_size; treated as harness error, not as violation
             res.note( "exchange: PDU larger than allocated buffer, skipped" );
+            if ( Port::real ) port.reception( room, false, false, buf, res );
             return;
         }
         std::uint16_t header = static_cast< std::uint16_t >( c_inflight.llid | ( c_nesn ? 4 : 0 ) | ( c_sn ? 8 : 0 ) | ( !cqueue.empty() ? 0x10 : 0 ) | ( c_inflight.payload.size() << 8 ) );
@@ -192,23 +287,31 @@ void run( const sim::Plan& plan, sim::Result& res )
         else
         {
             res.probe( "receive_buffer_full_at_reception" );
-            layout::header( small, header );
+            if ( Port::real ) layout::header( buf, header ); else layout::header( small, header );
         }
         const bool valid_crc = fault != f_c2p_crc;
         // MIC as the CCM hardware computes it: nonce from the packet counters of both sides; empty PDUs carry no MIC
         bool valid_mic = true;
         if ( Enc && c_nonempty )
-            valid_mic = fault != f_c2p_mic && c_tx_count == radio.rx_counter;
+            valid_mic = fault != f_c2p_mic && c_tx_count == port.rx_counter();
         if ( fault == f_c2p_crc ) { res.fault( "c2p_crc" ); ++n_faults; }
         if ( Enc && c_nonempty && fault == f_c2p_mic ) { res.fault( "c2p_mic" ); ++n_faults; }
-        if ( !valid_crc && !valid_mic ) { res.note( "exchange: bad crc and bad mic, no response" ); return; }
+        // what fails its MIC is not what the central sent
+        if ( !valid_mic && room )
+            for ( std::size_t i = 0; i != c_inflight.payload.size(); ++i ) layout::body( buf ).first[ i ] ^= 0xa5;
 
-        const std::uint64_t rx_before = radio.rx_counter, tx_before = radio.tx_counter;
-        write_buffer trans{ nullptr, 0 };
-        int path = 0;
-        if ( !room || !valid_crc ) { trans = radio.isr_next_transmit(); path = 0; }
-        else if ( valid_mic ) { trans = radio.isr_received( buf ); path = 1; }
-        else { trans = radio.isr_acknowledge( buf ); path = 2; }
+        const std::uint64_t rx_before = port.rx_counter(), tx_before = port.tx_counter();
+        // what the reception amounts to: 0 nothing usable (no room or CRC error), 1 a PDU to take, 2 a PDU that failed its MIC
+        const int path = ( !room || !valid_crc ) ? 0 : valid_mic ? 1 : 2;
+        const auto outcome = port.reception( room, valid_crc, valid_mic, buf, res );
+        if ( !outcome.first )
+        {
+            if ( !valid_crc && !valid_mic ) { res.note( "exchange: bad crc and bad mic, no response" ); return; }
+            if ( !violated ) res.violate( "C15", "no-response", "no-response event-given-up", idx, "%s: the radio ended the event without a response (room %d, crc %d, mic %d)", cfg.c_str(), room, valid_crc, valid_mic );
+            violated = true;
+            return;
+        }
+        write_buffer trans = outcome.second;
         // from the central's point of view the PDU is new to the peripheral iff it was not legitimately accepted before
         // (the central keeps its SN until it sees the acknowledge)
         if ( path == 1 && !c_inflight.accepted_legitimately )
@@ -217,18 +320,18 @@ void run( const sim::Plan& plan, sim::Result& res )
             ++n_new_rx;
             // C16: exactly one increment for a new non-empty PDU, none for an empty one
             const std::uint64_t expect = rx_before + ( c_nonempty ? 1 : 0 );
-            if ( radio.rx_counter != expect && !violated )
+            if ( Port::has_counters && port.rx_counter() != expect && !violated && !counter_rule_hit )
             {
-                violated = true;
+                counter_rule_hit = true;     // the run ends after this exchange: what the wrong counter leads to (C15, C17) is still judged
                 res.violate( "C16", "rx-counter", c_nonempty ? "rx-counter new-nonempty" : "rx-counter empty", idx, "%s: receive packet counter went %llu -> %llu for a new %s PDU", cfg.c_str(),
-                             (unsigned long long)rx_before, (unsigned long long)radio.rx_counter, c_nonempty ? "non-empty" : "empty" );
+                             (unsigned long long)rx_before, (unsigned long long)port.rx_counter(), c_nonempty ? "non-empty" : "empty" );
             }
         }
-        else if ( radio.rx_counter != rx_before && !violated )
+        else if ( port.rx_counter() != rx_before && !violated && !counter_rule_hit )
         {
-            violated = true;
+            counter_rule_hit = true;     // the run ends after this exchange: what the wrong counter leads to (C15, C17) is still judged
             res.violate( "C16", "rx-counter", path == 1 ? "rx-counter retransmission" : ( path == 2 ? "rx-counter mic-failure" : "rx-counter not-received" ), idx,
-                         "%s: receive packet counter went %llu -> %llu although no new PDU was accepted (path %d)", cfg.c_str(), (unsigned long long)rx_before, (unsigned long long)radio.rx_counter, path );
+                         "%s: receive packet counter went %llu -> %llu although no new PDU was accepted (path %d)", cfg.c_str(), (unsigned long long)rx_before, (unsigned long long)port.rx_counter(), path );
         }
         if ( path == 2 && !c_inflight.accepted_legitimately ) c_inflight.mic_failed_as_new = true;
         if ( trans.size == 0 || trans.buffer == nullptr )
@@ -246,7 +349,7 @@ void run( const sim::Plan& plan, sim::Result& res )
             res.violate( "C15", "transmit-size", "transmit-size", idx, "%s: transmit buffer of %zu bytes announces %zu payload bytes", cfg.c_str(), trans.size, rlen );
             return;
         }
-        const std::uint64_t p_tx_counter_used = radio.tx_counter;     // the CCM encrypts with the counter as it is when the PDU goes out
+        const std::uint64_t p_tx_counter_used = port.tx_counter();     // the CCM encrypts with the counter as it is when the PDU goes out
         res.note( "exchange: path %d resp llid %u sn %d nesn %d len %zu", path, rh & 3, ( rh >> 3 ) & 1, ( rh >> 2 ) & 1, rlen );
         (void)tx_before;
 
@@ -282,9 +385,9 @@ void run( const sim::Plan& plan, sim::Result& res )
             if ( rlen != 0 )
             {
                 ++n_new_tx;
-                if ( Enc && p_tx_counter_used != c_rx_count && !violated )
+                if ( Enc && p_tx_counter_used != c_rx_count && !violated && !counter_rule_hit )
                 {
-                    violated = true;
+                    counter_rule_hit = true;     // the run ends after this exchange: what the wrong counter leads to (C15, C17) is still judged
                     res.violate( "C16", "tx-counter", p_tx_counter_used > c_rx_count ? "tx-counter ahead" : "tx-counter behind", idx, "%s: peripheral PDU encrypted with transmit packet counter %llu, the central expects %llu (nonce reused or skipped)",
                                  cfg.c_str(), (unsigned long long)p_tx_counter_used, (unsigned long long)c_rx_count );
                 }
@@ -305,10 +408,10 @@ void run( const sim::Plan& plan, sim::Result& res )
             }
         }
         // the peripheral treats a PDU as delivered (frees it, advances the counter) only after the central has it
-        if ( radio.tx_counter > c_received.size() && !violated )
+        if ( Port::has_counters && port.tx_counter() > c_received.size() && !violated )
         {
             violated = true;
-            res.violate( "C15", "freed-before-delivered", "freed-before-delivered", idx, "%s: %llu transmit PDUs were released as acknowledged but the central received only %zu", cfg.c_str(), (unsigned long long)radio.tx_counter, c_received.size() );
+            res.violate( "C15", "freed-before-delivered", "freed-before-delivered", idx, "%s: %llu transmit PDUs were released as acknowledged but the central received only %zu", cfg.c_str(), (unsigned long long)port.tx_counter(), c_received.size() );
         }
     };
 
@@ -321,6 +424,7 @@ void run( const sim::Plan& plan, sim::Result& res )
         {
         case op_exchange:
             exchange( static_cast< int >( ( ( op.arg( 0 ) % f_count ) + f_count ) % f_count ), idx );
+            if ( counter_rule_hit ) violated = true;
             break;
         case op_central_send: {
             const std::size_t max_payload = radio.max_rx_size() - 2;
@@ -397,6 +501,7 @@ void run( const sim::Plan& plan, sim::Result& res )
         {
             ++steps;
             exchange( f_none, end_idx );
+            if ( counter_rule_hit ) violated = true;
             while ( !violated && ll_receive( end_idx ) ) {}
         }
         while ( !violated && ll_receive( end_idx ) ) {}
@@ -422,8 +527,8 @@ void run( const sim::Plan& plan, sim::Result& res )
         {
             if ( delivered != sent_valid.size() )
                 res.violate( "C15", "final-accounting", "final-accounting rx", end_idx, "%s: %zu PDUs sent by the central, %zu delivered", cfg.c_str(), sent_valid.size(), delivered );
-            if ( Enc && radio.rx_counter != c_tx_count )
-                res.violate( "C16", "rx-counter", "rx-counter final", end_idx, "%s: receive packet counter %llu, central transmitted %llu non-empty PDUs", cfg.c_str(), (unsigned long long)radio.rx_counter, (unsigned long long)c_tx_count );
+            if ( Enc && port.rx_counter() != c_tx_count )
+                res.violate( "C16", "rx-counter", "rx-counter final", end_idx, "%s: receive packet counter %llu, central transmitted %llu non-empty PDUs", cfg.c_str(), (unsigned long long)port.rx_counter(), (unsigned long long)c_tx_count );
         }
     }
     res.probe( "exchanges", n_exchanges );
@@ -438,11 +543,11 @@ struct pdu_harness : sim::Harness
     std::string nontrivial_rule( const std::string& ) const override
     {
         return "seeded op sequences: packet exchanges (each with an attached air fault: none / central->peripheral lost, CRC error, MIC error / peripheral->central lost, CRC error), "
-               "central queues PDUs (all LLIDs incl. reserved), link layer commits PDUs, upper layer consumes, max_rx/max_tx changes, stop, reset; 10 (tx, rx, layout) configurations; "
+               "central queues PDUs (all LLIDs incl. reserved), link layer commits PDUs, upper layer consumes, max_rx/max_tx changes, stop, reset; 10 (tx, rx, layout) configurations, each behind the re-stated decision table and behind the real nRF52 front end; "
                "a fault-free drain phase follows; non-trivial = at least one fault fired and at least one new non-empty PDU moved in each direction; distinct = distinct trace hashes";
     }
-    std::vector< std::string > real_components() const override { return { "bluetoe/link_layer/ll_data_pdu_buffer.hpp", "bluetoe/link_layer/ring_buffer.hpp", "bluetoe/link_layer/default_pdu_layout.hpp", "bluetoe/bindings/nordic/nrf.hpp (encrypted_pdu_layout)" }; }
-    std::vector< std::string > stub_components() const override { return { "radio (nRF52 receive decision table re-stated in the harness; packet counters; MIC verdict derived from both sides' counters)", "central (reference ARQ)", "air" }; }
+    std::vector< std::string > real_components() const override { return { "bluetoe/link_layer/ll_data_pdu_buffer.hpp", "bluetoe/link_layer/ring_buffer.hpp", "bluetoe/link_layer/default_pdu_layout.hpp", "bluetoe/bindings/nordic/nrf.hpp (encrypted_pdu_layout)", "configurations 10..19: bluetoe/bindings/nordic/nrf52/include/bluetoe/nrf52.hpp (schedule_connection_event, radio_interrupt_handler in the connection event states, run, packet counter forwarding)" }; }
+    std::vector< std::string > stub_components() const override { return { "configurations 0..9: radio (nRF52 receive decision table re-stated in the harness; packet counters)", "configurations 10..19: the Hardware abstraction below nrf52.hpp (harness/nrf_front.hpp: timers, buffers, counters recorded; nrf52.cpp is not compiled)", "MIC verdict derived from both sides' counters", "central (reference ARQ)", "air" }; }
     std::uint64_t default_runs( const std::string&, bool thorough ) const override { return thorough ? 2000000 : 60000; }
     std::vector< std::string > op_names() const override { return { "exchange", "central_send", "ll_send", "ll_receive", "set_max_rx", "set_max_tx", "stop", "reset" }; }
 
@@ -451,7 +556,7 @@ struct pdu_harness : sim::Harness
         sim::Rng rng( seed );
         sim::Plan p;
         p.harness = name(); p.property = property; p.seed = seed;
-        p.config = static_cast< int >( rng.below( 10 ) );
+        p.config = static_cast< int >( rng.below( 20 ) );
         const unsigned n_ops = static_cast< unsigned >( rng.range( 4, thorough ? 160 : 70 ) );
         unsigned w[ op_count ];
         w[ op_exchange ] = static_cast< unsigned >( rng.range( 4, 12 ) );
@@ -496,20 +601,31 @@ struct pdu_harness : sim::Harness
 
     void execute( const sim::Plan& plan, sim::Result& res ) const override
     {
-        const int c = ( ( plan.config % 10 ) + 10 ) % 10;
+        const int c = ( ( plan.config % 20 ) + 20 ) % 20;
         res.note( "config %d", c );
         switch ( c )
         {
-        case 0: run< 29, 29, false >( plan, res ); break;
-        case 1: run< 30, 30, true >( plan, res ); break;
-        case 2: run< 61, 61, false >( plan, res ); break;
-        case 3: run< 62, 62, true >( plan, res ); break;
-        case 4: run< 100, 100, false >( plan, res ); break;
-        case 5: run< 87, 100, true >( plan, res ); break;
-        case 6: run< 29, 120, false >( plan, res ); break;
-        case 7: run< 200, 58, true >( plan, res ); break;
-        case 8: run< 520, 520, false >( plan, res ); break;
-        case 9: run< 600, 300, true >( plan, res ); break;
+        case 0: run< stub_port< 29, 29, false > >( plan, res ); break;
+        case 1: run< stub_port< 30, 30, true > >( plan, res ); break;
+        case 2: run< stub_port< 61, 61, false > >( plan, res ); break;
+        case 3: run< stub_port< 62, 62, true > >( plan, res ); break;
+        case 4: run< stub_port< 100, 100, false > >( plan, res ); break;
+        case 5: run< stub_port< 87, 100, true > >( plan, res ); break;
+        case 6: run< stub_port< 29, 120, false > >( plan, res ); break;
+        case 7: run< stub_port< 200, 58, true > >( plan, res ); break;
+        case 8: run< stub_port< 520, 520, false > >( plan, res ); break;
+        case 9: run< stub_port< 600, 300, true > >( plan, res ); break;
+        // the same buffers behind the real nRF52 front end
+        case 10: run< nrf_port< 29, 29, false > >( plan, res ); break;
+        case 11: run< nrf_port< 30, 30, true > >( plan, res ); break;
+        case 12: run< nrf_port< 61, 61, false > >( plan, res ); break;
+        case 13: run< nrf_port< 62, 62, true > >( plan, res ); break;
+        case 14: run< nrf_port< 100, 100, false > >( plan, res ); break;
+        case 15: run< nrf_port< 87, 100, true > >( plan, res ); break;
+        case 16: run< nrf_port< 29, 120, false > >( plan, res ); break;
+        case 17: run< nrf_port< 200, 58, true > >( plan, res ); break;
+        case 18: run< nrf_port< 520, 520, false > >( plan, res ); break;
+        case 19: run< nrf_port< 600, 300, true > >( plan, res ); break;
         }
     }
 
